@@ -8,7 +8,8 @@ C (implementation <-> M, `Drivers/C19.lean`) and S (property oracle on the imple
       dominates it by at most the mass outside the box; untruncated `_theta` = inclusion-exclusion of `model.mass`
       over the unclipped half-spaces
   S3  theta is increasing in each threshold
-  S4  spread round trips, survival probability, CDS payoff expectation, default times
+  S4  spread round trips, survival probability, CDS payoff expectation (whole payoff and leg by leg: the code's legs recovered
+      from implied_cds_spread vs quadrature of the payoff class' legs - theorem cds_legs_are_expectations), default times
   #32 (`_theta` on a *truncated* copula model mixes truncated diagonals with untruncated pair terms) is only compared
       with M fed the same ingredients - the property speaks about the restricted model through the box-clipped masses.
 """
@@ -49,13 +50,21 @@ RULE = ("synthetic: random dyadic axes with a piecewise-constant dyadic Levy den
         "credit grid; rates are `model.mass` of the cells of the truncated copula model (MarkovChainLevyCopula is not built). "
         "spreads: recovery in [0, 0.8], r in [0.005, 0.08], maturity in [0.25, 10], spreads in the brentq bracket and "
         "deliberately outside it. default times: random dyadic log-paths, thresholds dyadic, no increment exactly on a "
-        "threshold. malformed: non-negative level, wrong number of levels, four names. non-trivial = well-formed grid and "
+        "threshold. malformed: non-negative level, wrong number of levels, four names. histories / several objects: a quarter of "
+        "all models are rebuilt through an edited and re-initialised parameter object (zoo.REINIT); in 30-40 % of the chain1d / theta / "
+        "spreads cases a decoy pricer on another model is asked the same questions at the same levels first; theta of the pricer under "
+        "test is always judged against model.mass asked of the model itself. edges: R = 0, R in {0.999, 1}, r in {1e-4, 1e-3}, s = 0; "
+        "r = 0 (c19.cds.zero_rate) and -h <= a < 0 (c19.credit.level_within_h) as excluded points of the theorems. non-trivial = well-formed grid and "
         "theta > 1e-9 * intensity (region probes) / finite values (others); distinct = distinct (probe, input)")
 NOT_PROVED = [
     "that a concrete family's `integrate` / a copula model's `mass` is finitely additive and non-negative (IsMass, IsBoxMass2/3, "
     "AdditiveOn are hypotheses here; C09 / C11 / C12 establish them) - compared numerically by S1/S2",
-    "the closed-form legs as expectations of `CDS.evaluate` under an exponential default time (needs integration over R): "
-    "oracle-checked by quadrature (probe c19.cds.expectation)",
+    "the closed-form legs ARE now proved to be the expectations of the pathwise `CDS.evaluate` legs under tau ~ Exp(theta) with "
+    "df(t) = exp(-rt) (cds_legs_are_expectations, expected_payoff_zero_at_par: real integrals by FTC, r != 0, r + theta != 0); what "
+    "is still only compared: that the code's float legs / payoff are these formulas (c19.cds.legs, c19.cds.expectation by "
+    "quadrature at 1e-6 / 1e-8; Drivers/C19 legsF at 2^-40), that the default time of the chain is exponential with rate theta "
+    "(a statement about the jump process, not about these files), and r = 0 (excluded point: known finding "
+    "C19-cds-payoff-zero-rate-nan)",
     "brentq itself: `implied_cds_threshold` / `implied_cds_spread` are modelled by their contract (the root inside the "
     "bracket, ValueError outside); uniqueness / inverse statements are theorems, convergence of the search is not",
     "exp is an abstract strictly increasing function with exp 0 = 1 and exp(x+y) = exp x * exp y (theorem hypotheses); float "
@@ -94,6 +103,25 @@ def guarded(ctx, probe, d, cls, fn, *a, **k):
 
 def make_model(fam, params, exp, r=0.02):
     return zoo.make_exp(fam, params, r=r) if exp else zoo.make_levy(fam, params)
+
+
+def decoy_1d(a, R=0.4, T=1.0):
+    """several objects in one process: another pricer on another model is asked the same questions first; a result remembered
+    per class / per module instead of per pricer then shows in the pricer under test"""
+    dec = CFLevyModel(make_model("hem", dict(sigma=0.1, p=0.5, eta1=11.0, eta2=4.0, intensity=3.0), True, 0.03))
+    dec._theta(a)
+    dec.survival_probability(a, T)
+    dec.cds_spread(a, R)
+    return dec
+
+
+def decoy_nd(levels, R=0.4, T=1.0):
+    m = [make_model("hem", dict(sigma=0.1, p=0.5, eta1=11.0, eta2=4.0 + i, intensity=3.0), True, 0.03) for i in range(len(levels))]
+    dec = CFLevyCopulaModel(zoo.make_copula_model(m, zoo.make_copula("clayton", theta=1.3, eta=0.6)))
+    dec._theta(list(levels))
+    dec.survival_probability(list(levels), T)
+    dec.first_to_default_par_spread(list(levels), R)
+    return dec
 
 
 def make_cm(d):
@@ -183,6 +211,9 @@ def _chain1d(ctx, d, cls, corr):
     lam = math.fsum(q)
     region = math.fsum(q[k] for k, x in enumerate(ax) if x < a)
     th_clip = float(nu.integrate(l, a))                     # nu restricted to [l, r], lower orthant (-inf, a]
+    if d.get("decoy"):
+        decoy_1d(a)
+        ctx.branches["c19.chain1d:decoy_pricer_first"] += 1
     th_trunc = float(CFLevyModel(model_t)._theta(a))
     th_full = float(CFLevyModel(model)._theta(a))
     outside = float(nu.integrate(-INF, l))
@@ -284,6 +315,45 @@ def _level_within_h(ctx, d, cls):
     except ValueError as e:
         detail["chain"] = repr(e)
     ctx.fail("oracle", "c19.credit.level_within_h", d, detail, cls=cls, mirrors_model=bool(mirrors))
+
+
+# ------------------------------------------------------------------------------------------------- edge: interest rate 0
+def zero_rate_probe(ctx, d, corr=True):
+    cls = dict(stream="edge", zero_rate=True)
+    guarded(ctx, "c19.cds.zero_rate", d, cls, _zero_rate, ctx, d, cls)
+
+
+def _zero_rate(ctx, d, cls):
+    """the excluded point `r != 0` of `cds_legs_are_expectations` (3), (5), run on the real code: a model with interest rate 0 (a
+    legal parameter; the closed forms only need r + theta != 0).  Admissible outcomes: the payoff class refuses the
+    discounting function, or its value is the limit r -> 0 of the stated formula, (1-R) 1{tau <= T} - s min(T, tau)."""
+    R, s, T = d["R"], d["s"], d["T"]
+    model = make_model(d["family"], {}, True, 0.0)
+    ctx.count("c19.cds.zero_rate", d, nontrivial=True, branch="zero_rate")
+    try:
+        cds = CDS(recovery_rate=R, spread=s, maturity=T, discounting=model.df)
+    except (ValueError, ZeroDivisionError):
+        ctx.branches["c19.cds.zero_rate:rejected_by_constructor"] += 1
+        return
+    bad = {}
+    for tau in d["taus"]:
+        t = INF if tau == "inf" else tau
+        got = float(cds.evaluate(t))
+        want = ((1 - R) if t <= T else 0.0) - s * min(T, t)
+        if not (math.isfinite(got) and abs(got - want) <= 1e-12 * max(1.0, abs(want))):
+            bad[str(tau)] = {"CDS.evaluate": got, "limit of the stated formula": want}
+    # the closed forms themselves are fine at r = 0 (r + theta != 0): par spread <-> zero present value
+    cf = CFLevyModel(model)
+    a = d["a"]
+    par = float(cf.cds_spread(a, R))
+    if par > 1e-12:
+        s0 = float(cf.implied_cds_spread(pv=0.0, level_a=a, recovery_rate=R, maturity=T))
+        if not abs(s0 - par) <= 1e-10 * max(1.0, abs(par)):
+            ctx.fail("oracle", "c19.pv_zero_is_par_spread", d, {"implied_cds_spread(pv=0)": s0, "par_spread": par, "r": 0.0}, cls=cls)
+            return
+    if bad:
+        ctx.fail("oracle", "c19.cds.zero_rate", d, {"what": "CDS payoff of a model with interest rate 0 is not the r -> 0 limit of its formula",
+                                                  "values": bad, "_r": float(cds._r)}, cls=cls)
 
 
 # ------------------------------------------------------------------------------------------------- synthetic exact stream
@@ -516,6 +586,9 @@ def _theta(ctx, d, cls, corr):
     dim = len(levels)
     _, cm = make_cm(d)
     cf = CFLevyCopulaModel(cm)
+    if d.get("decoy"):
+        decoy_nd(levels)
+        ctx.branches["c19.theta:decoy_pricer_first"] += 1
     th = float(cf._theta(levels))
     th_mass, parts = incl_excl(dim, lambda I: cm.mass(tuple([-INF] * dim),
                                                         tuple(levels[i] if i in I else INF for i in range(dim))))
@@ -594,7 +667,14 @@ def _spreads(ctx, d, cls, corr):
         model = make_model(d["family"], d["params"], True, r)
         cf = CFLevyModel(model)
         a = d["a"]
+        if d.get("decoy"):
+            decoy_1d(a, R, T)
+            ctx.branches["c19.spreads:decoy_pricer_first"] += 1
         theta = float(cf._theta(a))
+        ref = float(model.mass(-INF, a))                # theta is nu(-inf, a), asked of the model itself
+        if not abs(theta - ref) <= 1e-12 * max(ref, 1e-300):
+            ctx.fail("oracle", "c19.theta_is_lower_tail_mass", d, {"_theta": theta, "model.mass(-inf, a)": ref}, cls=cls)
+            return
         par = float(cf.cds_spread(level_a=a, recovery_rate=R))
         lo, hi = -5, 10
         df = model.df
@@ -602,7 +682,15 @@ def _spreads(ctx, d, cls, corr):
         margins, cm = make_cm(dict(d, exp=True))
         cf = CFLevyCopulaModel(cm)
         a = list(d["a"])
+        if d.get("decoy"):
+            decoy_nd(a, R, T)
+            ctx.branches["c19.spreads:decoy_pricer_first"] += 1
         theta = float(cf._theta(a))
+        ref = incl_excl(len(a), lambda I: cm.mass(tuple([-INF] * len(a)), tuple(a[i] if i in I else INF for i in range(len(a)))))[0]
+        if not abs(theta - ref) <= 1e-9 * max(abs(ref), 1e-300):
+            ctx.fail("oracle", "c19.theta_is_mass_of_union", d, {"dim": len(a), "_theta(untruncated)": theta,
+                                                               "incl_excl of model.mass over the half-spaces": ref}, cls=cls)
+            return
         par = float(cf.first_to_default_par_spread(levels_a=a, recovery_rate=R))
         lo, hi = -10, 10
         df = cm.df
@@ -637,6 +725,30 @@ def _spreads(ctx, d, cls, corr):
         ctx.fail("oracle", "c19.cds.expectation", d, {"spread": s, "pv = E[CDS.evaluate] df(T)": pv,
                                                     "implied_cds_spread(pv)": s_back, "theta": theta}, cls=cls)
         return
+    # the two legs separately (theorem cds_legs_are_expectations (2), (3)): the code's closed-form legs, recovered from two
+    # queries of implied_cds_spread (s(pv) = (default_leg - pv) / fixed_leg), vs the expectations of the payoff class's own
+    # legs under tau ~ Exp(theta): protection leg = CDS with zero spread, premium leg = minus the CDS with R = 1, spread 1
+    legs = None
+    if theta > 1e-6:
+        p1 = 0.01
+        s1 = float(cf.implied_cds_spread(pv=p1, level_a=a, recovery_rate=R, maturity=T))
+        fl_code = p1 / (s0 - s1)
+        dl_code = s0 * fl_code
+        cds_dl = CDS(recovery_rate=R, spread=0.0, maturity=T, discounting=df)
+        cds_fl = CDS(recovery_rate=1.0, spread=1.0, maturity=T, discounting=df)
+        dens = lambda t: theta * math.exp(-theta * t)
+        dl_q = (quad(lambda t: dens(t) * float(cds_dl.evaluate(t)), 0.0, T, epsabs=1e-14, epsrel=1e-12)[0]
+                + math.exp(-theta * T) * float(cds_dl.evaluate(np.inf))) * float(df(T))
+        fl_q = -(quad(lambda t: dens(t) * float(cds_fl.evaluate(t)), 0.0, T, epsabs=1e-14, epsrel=1e-12)[0]
+                 + math.exp(-theta * T) * float(cds_fl.evaluate(np.inf))) * float(df(T))
+        ctx.branches["c19.spreads:legs_checked"] += 1
+        tol_legs = 1e-6 * max(abs(dl_q), abs(fl_q), 1e-9)       # R = 1: the protection leg is 0, the scale is the premium leg's
+        if not (abs(dl_code - dl_q) <= tol_legs and abs(fl_code - fl_q) <= tol_legs):
+            ctx.fail("oracle", "c19.cds.legs", d, {"default_leg (from implied_cds_spread)": dl_code, "E[protection leg of CDS.evaluate] df(T)": dl_q,
+                                                 "fixed_leg (from implied_cds_spread)": fl_code, "E[premium leg of CDS.evaluate] df(T)": fl_q,
+                                                 "theta": theta}, cls=cls)
+            return
+        legs = (dl_code, fl_code)
     # threshold <-> spread (1-d closed form only)
     if d["kind"] == "1d":
         h0 = d["h0"]
@@ -662,6 +774,23 @@ def _spreads(ctx, d, cls, corr):
         ctx.fail("corr", "c19.survival.model", d, {"name": "Drivers/C19 exparg vs survival_probability", "impl": surv,
                                                    "model_exponent": float(x_surv)}, cls=cls)
         return
+    # the carrier-generic formulas of the real theorem, run at Q: legs vs the code's, pathwise payoff vs CDS.evaluate
+    t_mid = T / 2
+    dfT, dfTau = float(cds._df_T), float(df(t_mid))
+    out = ctx.lean(f"legsF {w(E)} {w(theta)} {w(float(cds._r))} {w(R)} {w(s)} {w(dfT)} {w(dfTau)}")
+    if out != "bad-op":
+        m_dl, m_fl, m_pv, m_def, m_sur = (rd(x) for x in out.split(" "))
+        sc_path = fr((abs(1 - R) + abs(s) / float(cds._r)) / dfT)
+        ok = close(float(cds.evaluate(t_mid)), m_def, scale=sc_path) and close(float(cds.evaluate(np.inf)), m_sur, scale=sc_path) \
+            and close(float(cds.evaluate(2 * T)), m_sur, scale=sc_path)
+        if legs is not None:     # r of the closed form is model.r, the payoff's is -log(df(1)): equal up to rounding
+            tl = fr(1e-6) * max(abs(m_dl), abs(m_fl))
+            ok = ok and abs(fr(legs[0]) - m_dl) <= tl and abs(fr(legs[1]) - m_fl) <= tl
+        if not ok:
+            ctx.fail("corr", "c19.legsF.model", d, {"name": "Drivers/C19 legsF vs CDS.evaluate / the legs of implied_cds_spread",
+                                                   "impl_legs": legs, "impl_payoff": [float(cds.evaluate(t_mid)), float(cds.evaluate(np.inf))],
+                                                   "model": out}, cls=cls)
+            return
     for pv_in, want_none in ((pv, False), (0.0, False), (d["pv_out"], True)):
         out = ctx.lean(f"spreads {w(E)} {w(theta)} {w(rr)} {w(R)} {w(s)} {w(pv_in)} {lo} {hi}").split(" ")
         m_par, m_dl, m_fl, m_pv, m_imp = rd(out[0]), rd(out[1]), rd(out[2]), rd(out[3]), out[4]
@@ -794,16 +923,20 @@ def draw_margin(rng, fam=None):
     fam = fam or rng.choice(zoo.FAMILIES)
     x = rng.random()
     if x < 0.2:
-        return fam, {}
-    if x < 0.5:
-        return fam, zoo.draw_params(rng, fam)
-    return fam, heavy_left(rng, fam)
+        prm = {}
+    elif x < 0.5:
+        prm = zoo.draw_params(rng, fam)
+    else:
+        prm = heavy_left(rng, fam)
+    if rng.random() < 0.25:        # construction history: the same model rebuilt through an edited, re-initialised parameter object
+        prm = dict(prm, **{zoo.REINIT: True})
+    return fam, prm
 
 
 def case_1d(rng, fam=None, i=0):
     fam, params = draw_margin(rng, fam)
     return dict(family=fam, params=params, exp=rng.random() < 0.5, a=rng.choice(LEVELS), h=rng.choice([0.1, 0.05, 0.02]),
-                via_process=(i % 3 == 2))
+                via_process=(i % 3 == 2), decoy=rng.random() < 0.4)
 
 
 def case_nd(rng, dim):
@@ -821,7 +954,16 @@ def case_nd(rng, dim):
 def case_spreads(rng, kind):
     base = dict(kind=kind, R=round(rng.uniform(0.0, 0.8), 3), T=rng.choice([0.25, 1.0, 2.0, 5.0, 10.0]),
                 r=round(rng.uniform(0.005, 0.08), 4), s=round(rng.uniform(-0.02, 0.3), 5), pv_out=rng.choice([-1e4, 1e4]),
-                h0=rng.choice([1e-6, 1e-3]))
+                h0=rng.choice([1e-6, 1e-3]), decoy=rng.random() < 0.4)
+    x = rng.random()               # edges of the declared ranges: no recovery, (almost) full recovery, a very small rate, zero spread
+    if x < 0.08:
+        base["R"] = 0.0
+    elif x < 0.16:
+        base["R"] = rng.choice([0.999, 1.0])
+    elif x < 0.24:
+        base["r"] = rng.choice([1e-4, 1e-3])
+    elif x < 0.30:
+        base["s"] = 0.0
     if kind == "1d":
         fam, params = draw_margin(rng)
         return dict(base, family=fam, params=params, a=rng.choice(LEVELS))
@@ -859,10 +1001,10 @@ def case_theta(rng):
     dim = rng.choice([2, 3, 3])
     nd = case_nd(rng, dim)
     return dict(margins=nd["margins"], copula=nd["copula"], copula_kw=nd["copula_kw"], a=nd["a"], exp=nd["exp"],
-                delta=rng.choice([0.1, 0.01, 1e-4]))
+                delta=rng.choice([0.1, 0.01, 1e-4]), decoy=rng.random() < 0.3)
 
 
-PROBES = {"c19.credit.level_within_h": level_within_h_probe, "c19.synthetic": synthetic_probe, "c19.theta": theta_probe, "c19.chain1d": chain1d_probe, "c19.chainNd": chainnd_probe, "c19.spreads": spreads_probe,
+PROBES = {"c19.credit.level_within_h": level_within_h_probe, "c19.cds.zero_rate": zero_rate_probe, "c19.synthetic": synthetic_probe, "c19.theta": theta_probe, "c19.chain1d": chain1d_probe, "c19.chainNd": chainnd_probe, "c19.spreads": spreads_probe,
           "c19.deftimes": deftimes_probe, "c19.payoff": payoff_probe, "c19.guards": guards_probe}
 # every failure a probe can raise is replayed by the probe that owns the stream
 OWNER = {"synthetic": "c19.synthetic", "theta": "c19.theta", "1d": "c19.chain1d", "nd": "c19.chainNd", "spreads": "c19.spreads", "deftimes": "c19.deftimes", "payoff": "c19.payoff",
@@ -896,6 +1038,10 @@ def run(ctx, corr=True):
         fam, params = draw_margin(rng)
         h = rng.choice([0.1, 0.05])
         level_within_h_probe(ctx, dict(family=fam, params=params, h=h, a=rng.choice([-h, -h / 2, -0.8 * h])))
+    for _ in range(ctx.n(3, 30)):            # the hypothesis r != 0 of the pathwise-leg theorem, run at the excluded point
+        T = rng.choice([0.5, 1.0, 5.0])
+        zero_rate_probe(ctx, dict(family=rng.choice(zoo.FAMILIES), R=rng.choice([0.0, 0.4, 0.6]), s=rng.choice([0.0, 0.01, 0.05]), T=T,
+                                  a=rng.choice(LEVELS), taus=["inf", round(rng.uniform(0.05, 0.95) * T, 4), 2 * T]))
     if corr:
         base = case_nd(rng, 3)
         bad = list(base["a"])
